@@ -20,6 +20,7 @@ static void body(mvprog::PT& p) {
     for (size_t i = 0; i < p.ops.size(); i++) {
         char op = p.ops[i];
         if (op == 'y') { thread_yield(); continue; }
+        if (op == 'p') { int npad = pmc_choose(3, PMC_PROG, 0, "pad yields"); for (int kk = 0; kk < npad; kk++) thread_yield(); continue; }   // every arrival order on one vCPU
         int n = p.ops[++i] - '0';
         if (op == 'i' || op == 'j') {
             if (G->prog.pts[n].done) continue;
@@ -93,6 +94,7 @@ static const PmcConfig CFG[] = {
     {"S2,i0|j0",         3, {1,2}, {0,0}, {0,0}, {0,0}, "same-vCPU and cross-vCPU interrupters racing"},
     {"S2,S2,S2,S1|i0i2", 2, {1,2}, {0,0}, {0,0}, {0,0}, "equal deadlines"},
     {"S9|H0",            3, {1,2}, {0,0}, {0,0}, {0,0}, "thread_shutdown of a sleeper"},
+    {"pS2pS1,pS1,ppi0pi0", 3, {0,0}, {0,0}, {0,0}, {0,0}, "one vCPU, every arrival order of sleeps and interrupts"},
     {"yS3|H0",           3, {1,2}, {0,0}, {0,0}, {0,0}, "shutdown before the sleep: capped at 10 ms, EPERM"},
     {"S2yS2|i0|j0",      2, {1,2}, {0,0}, {0,0}, {0,0}, "three vCPUs"},
 };
